@@ -269,6 +269,13 @@ func (c *Ctx) c09Keys(identity bool) {
 		c.c09Native("wrong-hrp", craft("agf", syms, identity), identity, true)
 		c.c09Native("wrong-hrp", craft("age1x", syms, identity), identity, true)
 		c.c09Native("wrong-case-hrp", craft(hrp, syms, !identity), identity, true)
+		// a well-formed 32-byte payload under prefixes that merely START like the right one, or stop short of it
+		good32 := toSyms(c.rng.bytes(32))
+		for _, hw := range []string{"age1x", "age1yubikey", "age11", "age1age", "ag", "agee", "age-", "AGE-SECRET-KEY-X", "AGE-SECRET-KEY-1", "AGE-SECRET-KEY", "AGE-SECRET-KEY--", "AGE-PLUGIN-X-", "xage"} {
+			for _, up := range []bool{false, true} {
+				c.c09Native("near-miss-prefix", craft(hw, good32, up), identity, true)
+			}
+		}
 	}
 }
 
